@@ -63,7 +63,8 @@ Record WFw (s : st) : Prop := {
   w_acc : AccT (p_has s) (p_id s) (next s) (closed s);
   w_scan : scan (trace s) = (if p_has s then Some (p_id s, p_txn s) else None);
   w_flags : flags_ok (trace s) = true;
-  w_idle : k_has s = false -> p_has s = true -> p_txn s = false     (* a connection nobody holds has no open transaction *)
+  w_idle : k_has s = false -> p_has s = true -> p_txn s = false;    (* a connection nobody holds has no open transaction *)
+  w_pid : p_has s = true -> p_pidset s = true                      (* a published connection: pool.pid has been assigned *)
 }.
 Record WF (s : st) : Prop := {
   wf_w : WFw s;
@@ -77,13 +78,14 @@ Record Ext (s s' : st) : Prop := {
   x_sess : sess s' = sess s;
   x_next : next s <= next s';
   x_closed : forall id, In id (closed s) -> In id (closed s');
-  x_trace : Suffix (sess s) (other s) (trace s) (trace s')
+  x_trace : Suffix (sess s) (other s) (trace s) (trace s');
+  x_ncall : ncall s <= ncall s'
 }.
 Lemma Ext_refl : forall s, Ext s s.
 Proof. intros s. constructor; auto. constructor. Qed.
 Lemma Ext_trans : forall s1 s2 s3, Ext s1 s2 -> Ext s2 s3 -> Ext s1 s3.
 Proof.
-  intros s1 s2 s3 [A1 A2 A3 A4 A5] [B1 B2 B3 B4 B5]. constructor; try congruence; try lia; auto.
+  intros s1 s2 s3 [A1 A2 A3 A4 A5 A6] [B1 B2 B3 B4 B5 B6]. constructor; try congruence; try lia; auto.
   rewrite A1, A2 in B5. eapply Suffix_trans; eauto.
 Qed.
 
@@ -124,9 +126,9 @@ Ltac simp_hyps :=
   end.
 
 Ltac norm := cbv beta iota zeta delta [set_lock set_mine set_p_has set_p_id set_p_fk set_p_cs set_p_txn set_p_pidset set_out set_next set_closed set_sess set_k_reg set_k_has set_k_id
-  set_k_intxn set_k_imm set_k_fk set_k_pending set_k_forupd set_k_saved set_ncall set_trace set_bad
-  lock mine p_has p_id p_fk p_cs p_txn p_pidset out next closed sess k_reg k_has k_id k_intxn k_imm k_fk k_pending k_forupd k_saved ncall trace bad
-  andb orb negb fst snd other] in *; rewrite ?Nat.eqb_refl in *.
+  set_k_intxn set_k_imm set_k_fk set_k_pending set_k_mrem set_k_madd set_k_forupd set_k_saved set_ncall set_trace set_bad
+  lock mine p_has p_id p_fk p_cs p_txn p_pidset out next closed sess k_reg k_has k_id k_intxn k_imm k_fk k_pending k_mrem k_madd k_forupd k_saved ncall trace bad
+  andb orb negb fst snd other stmt_call] in *; rewrite ?Nat.eqb_refl in *.
 
 Ltac scan_tac :=
   cbn [flags_ok scan scan_step txn_of e_call e_ok e_con e_txn];
@@ -164,7 +166,7 @@ Ltac bool_crush :=
 Ltac finish := try reflexivity; try discriminate; try lia; auto; try scan_tac; try suffix_tac; try solve [bool_crush].
 
 Ltac destruct_st :=
-  intros [lock mine p_has p_id p_fk p_cs p_txn p_pidset out next closed sess k_reg k_has k_id k_intxn k_imm k_fk k_pending k_forupd k_saved ncall trace bad].
+  intros [lock mine p_has p_id p_fk p_cs p_txn p_pidset out next closed sess k_reg k_has k_id k_intxn k_imm k_fk k_pending k_mrem k_madd k_forupd k_saved ncall trace bad].
 Ltac run := norm; simp_hyps; repeat (split_one; norm; simp_hyps).
 
 (* frame: what connect / set_transaction_mode / cursor+execute leave alone in the cache *)
